@@ -37,7 +37,7 @@ func Generate(seed uint64, n int, tier, corpusDir string, shard int, out *kit.Ou
 		if i%3 == 2 {
 			backend = "bbolt"
 		}
-		c, err := runSeq(bigHistory(r.Fork(), backend))
+		c, err := runSeq(markReuse(r, bigHistory(r.Fork(), backend)))
 		if err != nil {
 			return err
 		}
@@ -51,13 +51,39 @@ func Generate(seed uint64, n int, tier, corpusDir string, shard int, out *kit.Ou
 		if i%4 == 3 {
 			backend = "bbolt"
 		}
-		c, err := runSeqX(xHistory(r.Fork(), backend, i%3))
+		c, err := runSeqX(markReuse(r, xHistory(r.Fork(), backend, i%3)))
 		if err != nil {
 			return err
 		}
 		out.Emit(c)
 	}
-	nSeq := n*2/3 - nBig - nX
+	// histories whose GetBatch calls pass the items slice of an earlier call again (seed c07-7)
+	nR := n / 12
+	for i := 0; i < nR; i++ {
+		backend := "mem"
+		if i%3 == 2 {
+			backend = "bbolt"
+		}
+		c, err := runSeq(batchReuseHistory(r.Fork(), backend))
+		if err != nil {
+			return err
+		}
+		out.Emit(c)
+	}
+	// a cache that starts cold over rows written by an earlier run (what remains of finding F23)
+	nC := n / 24
+	for i := 0; i < nC; i++ {
+		backend := "mem"
+		if i%2 == 1 {
+			backend = "bbolt"
+		}
+		c, err := runSeqX(coldHistory(r.Fork(), backend))
+		if err != nil {
+			return err
+		}
+		out.Emit(c)
+	}
+	nSeq := n*2/3 - nBig - nX - nR - nC
 	for i := 0; i < nSeq; i++ {
 		backend := "mem"
 		if i%3 == 2 {
@@ -67,7 +93,7 @@ func Generate(seed uint64, n int, tier, corpusDir string, shard int, out *kit.Ou
 		if i%8 == 5 {
 			al = longAlphabets
 		}
-		c, err := runSeq(c06.GenHistory(r.Fork(), backend, al))
+		c, err := runSeq(markReuse(r, c06.GenHistory(r.Fork(), backend, al)))
 		if err != nil {
 			return err
 		}
@@ -89,13 +115,13 @@ func Generate(seed uint64, n int, tier, corpusDir string, shard int, out *kit.Ou
 		{Init: 1, Prog: []string{"put:2", "putbig:3", "put:4"}, Readers: [][]string{{"get", "get"}, {"ttlget", "get"}}},
 		{Init: 0, Prog: []string{"putbig:1", "del", "putbig:2"}, Readers: [][]string{{"get", "get"}, {"get"}, {"ttlget", "get"}}},
 		// programs with a TTL write and clock steps ("C") anywhere in the schedule (an expired entry dropped by
-		// TTLGet under a read in flight is finding C07-EXPDEL)
+		// TTLGet under a read in flight was finding C07-EXPDEL, repaired)
 		{Init: 0, Prog: []string{"cast:1"}, Readers: [][]string{{"get"}, {"ttlget"}, {"get", "ttlget"}}},
 		{Init: -1, Prog: []string{"inst:1", "inst:2"}, Readers: [][]string{{"ttlget", "get"}, {"ttlget", "ttlget"}}},
 		{Init: 5, Prog: []string{"put:6", "cast:7", "put:8"}, Readers: [][]string{{"get", "ttlget"}, {"ttlget", "get"}}},
 		{Init: 3, Prog: []string{"del", "inst:4", "putbig:5"}, Readers: [][]string{{"get", "get"}, {"ttlget"}, {"ttlget"}}},
 	}
-	for i := 0; i < n-nSeq-nBig-nX; i++ {
+	for i := 0; i < n-nSeq-nBig-nX-nR-nC; i++ {
 		cr := r.Fork()
 		sc := configs[i%len(configs)]
 		sc.Kind = "sched"
@@ -214,6 +240,134 @@ func bigHistory(r *kit.Rng, backend string) *c06.History {
 		}
 	}
 	h.Ops = append(h.Ops, &c06.Op{Op: "GetBatch", PK: pk, CCs: ccs}, &c06.Op{Op: "Read", PK: pk})
+	return h
+}
+
+// markReuse: a GetBatch that repeats the partition key and clustering columns of an earlier GetBatch of the
+// history passes (2 times of 3) the items slice of that call again
+func markReuse(r *kit.Rng, h *c06.History) *c06.History {
+	seen := map[string]bool{}
+	for _, o := range h.Ops {
+		if o.Op != "GetBatch" {
+			continue
+		}
+		k := o.PK + "|" + strings.Join(o.CCs, ",")
+		if seen[k] && r.Chance(2, 3) {
+			o.Reuse = true
+		}
+		seen[k] = true
+	}
+	return h
+}
+
+// batchReuseHistory: writes, deletes and point reads on three keys of one partition between GetBatch calls over
+// the same clustering columns, most of which re-use the items slice of the call before (Ok and *Data as that
+// call left them): a storage - and a cache answering the whole batch from its entries - must set Ok and Data of
+// every item on every call, for rows that are missing, were deleted or expired in between as well
+func batchReuseHistory(r *kit.Rng, backend string) *c06.History {
+	pk := kit.Pick(r, []string{"6161", "6162", "0000"})
+	ccs := []string{"", "01", "6162"}
+	lists := [][]string{ccs, ccs[:2], {ccs[2]}, {ccs[1], ccs[0]}}
+	cur := map[string]string{}
+	h := &c06.History{Backend: backend}
+	batch := func() {
+		l := lists[0]
+		if r.Chance(1, 3) {
+			l = kit.Pick(r, lists)
+		}
+		h.Ops = append(h.Ops, &c06.Op{Op: "GetBatch", PK: pk, CCs: append([]string{}, l...)})
+	}
+	nv := 0
+	val := func() string { nv++; return fmt.Sprintf("76%02x", nv) }
+	batch()
+	n := 5 + r.Intn(8)
+	for i := 0; i < n; i++ {
+		cc := kit.Pick(r, ccs)
+		switch r.Intn(10) {
+		case 0, 1, 2:
+			v := val()
+			h.Ops = append(h.Ops, &c06.Op{Op: "Put", PK: pk, CC: cc, V: v})
+			cur[cc] = v
+		case 3, 4, 5:
+			h.Ops = append(h.Ops, &c06.Op{Op: "Cad", PK: pk, CC: cc, Old: cur[cc]})
+			delete(cur, cc)
+		case 6:
+			v := val()
+			ttl := kit.Pick(r, []int{0, 1})
+			h.Ops = append(h.Ops, &c06.Op{Op: "Ins", PK: pk, CC: cc, V: v, TTL: ttl})
+			if _, ok := cur[cc]; !ok {
+				cur[cc] = v
+			}
+			if ttl > 0 && r.Bool() {
+				h.Ops = append(h.Ops, &c06.Op{Op: "TTLGet", PK: pk, CC: cc}, &c06.Op{Op: "Advance", Ms: 1000}, &c06.Op{Op: "TTLGet", PK: pk, CC: cc})
+				delete(cur, cc)
+			}
+		case 7:
+			h.Ops = append(h.Ops, &c06.Op{Op: kit.Pick(r, []string{"Get", "TTLGet"}), PK: pk, CC: cc})
+		default:
+			o := &c06.Op{Op: "PutBatch", PK: pk}
+			for _, c := range ccs[:1+r.Intn(len(ccs))] {
+				v := val()
+				o.Items = append(o.Items, [3]string{pk, c, v})
+				cur[c] = v
+			}
+			h.Ops = append(h.Ops, o)
+		}
+		if r.Chance(3, 4) {
+			batch()
+		}
+	}
+	batch()
+	h = markReuse(r, h)
+	for _, o := range h.Ops { // here most repeated batches re-use the slice
+		if o.Op == "GetBatch" && !o.Reuse && r.Chance(1, 2) {
+			o.Reuse = true
+		}
+	}
+	return h
+}
+
+// coldHistory: one to three rows written to the storage directly (with and without a TTL), then the cache is
+// used: point reads, batches, clock advances around the TTLs, writes
+func coldHistory(r *kit.Rng, backend string) *c06.History {
+	pk := kit.Pick(r, []string{"6161", "6162"})
+	ccs := []string{"01", "6162", "ff"}
+	h := &c06.History{Backend: backend}
+	cur := map[string]string{}
+	for i, cc := range ccs[:1+r.Intn(3)] {
+		v := fmt.Sprintf("77%02x", i)
+		if r.Chance(2, 3) {
+			h.Ops = append(h.Ops, &c06.Op{Op: "Ins", PK: pk, CC: cc, V: v, TTL: 1 + r.Intn(2), Raw: true})
+		} else {
+			h.Ops = append(h.Ops, &c06.Op{Op: "Put", PK: pk, CC: cc, V: v, Raw: true})
+		}
+		cur[cc] = v
+	}
+	n := 6 + r.Intn(8)
+	for i := 0; i < n; i++ {
+		cc := kit.Pick(r, ccs)
+		switch r.Intn(12) {
+		case 0, 1, 2:
+			h.Ops = append(h.Ops, &c06.Op{Op: "Get", PK: pk, CC: cc})
+		case 3, 4, 5:
+			h.Ops = append(h.Ops, &c06.Op{Op: "TTLGet", PK: pk, CC: cc})
+		case 6:
+			h.Ops = append(h.Ops, &c06.Op{Op: "GetBatch", PK: pk, CCs: []string{cc, kit.Pick(r, ccs)}})
+		case 7, 8:
+			h.Ops = append(h.Ops, &c06.Op{Op: "Advance", Ms: kit.Pick(r, []int64{999, 1000, 2000})})
+		case 9:
+			v := fmt.Sprintf("78%02x", i)
+			h.Ops = append(h.Ops, &c06.Op{Op: "Put", PK: pk, CC: cc, V: v})
+			cur[cc] = v
+		case 10:
+			v := fmt.Sprintf("79%02x", i)
+			h.Ops = append(h.Ops, &c06.Op{Op: "Cas", PK: pk, CC: cc, Old: cur[cc], V: v, TTL: kit.Pick(r, []int{0, 1})})
+			cur[cc] = v
+		default:
+			h.Ops = append(h.Ops, &c06.Op{Op: "Cad", PK: pk, CC: cc, Old: cur[cc]})
+		}
+	}
+	h.Ops = append(h.Ops, &c06.Op{Op: "TTLGet", PK: pk, CC: ccs[0]}, &c06.Op{Op: "TTLRead", PK: pk})
 	return h
 }
 
